@@ -223,10 +223,15 @@ def other_activation(draw):
 
 @st.composite
 def cases(draw):
-    act = st.one_of(*([gen.activation_general()] * 6 + [other_activation()]))
+    act = st.one_of(*([gen.activation_general()] * 3 + [other_activation()]))
     spec = draw(gen.engine(activation=act, functions=True))
     n = draw(st.sampled_from([1, 2, 3, 4, 6]))
     rows = [draw(gen.input_row(spec)) for _ in range(n)]
+    if len(spec["inputs"]) >= 2 and draw(st.integers(0, 3)) == 0:
+        # one input missing (NaN, as after restart()) while the others are given
+        k = draw(st.integers(0, n - 1))
+        rows[k] = list(rows[k])
+        rows[k][draw(st.integers(0, len(spec["inputs"]) - 1))] = math.nan
     return {"spec": spec, "rows": rows}
 
 
